@@ -25,7 +25,7 @@ VIEW_WALKS = {'view', 'view_one', 'view_one_maybe_uninit'}
 SERDE_WALKS = {'serialize_components_by_row', 'serialize_components_by_column', 'deserialize_components_by_row', 'deserialize_components_by_column', 'expected_row_component_names'}
 SCOPES = {
     'C01': ENTITY_WALKS,
-    'C03': VIEW_WALKS | {'set_component'},
+    'C03': VIEW_WALKS | {'set_component', 'par_view'},
     'C04': None,
     'C05': None,
     'C06': SERDE_WALKS,
